@@ -3,10 +3,21 @@ import RpycModel.Conc.SendQ
 C12 — concurrent senders never interleave, lose or strand a message.
 
 Model: `RpycModel/Conc/SendQ/Model.lean` (`Connection._send` line by line, any number of threads and
-messages, re-entrant sends as nested activations).  `Reachable n prog s`: `s` is reached from the
-initial state with threads `0 … n-1` running the programs `prog t` by ANY interleaving of lines and ANY
-nested sends started anywhere.  Helper lemmas (the inductive invariants) are in `Conc/SendQ/Lemmas.lean`;
-only the property theorems and their non-vacuity examples live here.
+messages, re-entrant sends as nested activations, transport failure).  `Reachable n prog s`: `s` is reached
+from the initial state with threads `0 … n-1` running the programs `prog t` by ANY interleaving of lines,
+ANY nested sends started at ANY point, and a transport failure at ANY moment.  `ReachableR`: the same with
+nested sends started only while the parent is inside `_send` past its append (e.g. wherever it holds the
+lock, in particular inside the transport write).  Helper lemmas (the inductive invariants) are in
+`Conc/SendQ/{Lemmas,Progress,OsOrder}.lean`; only the property theorems and their non-vacuity examples
+live here.
+
+Scope of the statement.  C12 quantifies over schedules.  While the transport works (`dead = false`) every
+clause holds at full strength (1–6).  When a stream write fails the popped message cannot be transmitted
+by anybody (every rpyc stream closes itself on a failed write), `_send` leaves through its `finally` and
+does not look at the queue again: theorem `after_transport_failure` says exactly what is then true — the
+lock is not leaked, nothing is duplicated or reordered, the transmitted messages are a prefix of the
+append order, and what is lost or left queued is the rest of that order; `stranding_needs_dead_transport`
+says it happens in no other case.  What the owner of a stranded request observes is C11's subject.
 -/
 namespace Rpyc.Props.C12
 open Rpyc.Conc.SendQ
@@ -14,7 +25,9 @@ open Rpyc.Conc.SendQ
 variable {n : Nat} {prog : Tid → List Msg} {s : St}
 
 /-- **(1) Mutual exclusion.** The lock is held iff some thread is between the successful
-`acquire(False)` and the `release()`, and at most one thread ever is. -/
+`acquire(False)` and the `release()` (on the normal and on the exceptional path), and at most one thread
+ever is.  In particular the lock is never leaked: it is held only by a thread that still has its
+`finally: release()` in front of it. -/
 theorem mutex (h : Reachable n prog s) :
     (s.lock = true ↔ ∃ t, inCS (s.pc t) = true)
     ∧ (∀ t u, inCS (s.pc t) = true → inCS (s.pc u) = true → t = u) := by
@@ -37,47 +50,85 @@ theorem only_holder_writes (h : Reachable n prog s) {t : Tid} {s' : St} (hs : st
   · have hcs : inCS (s.pc t) = true := by rw [hpc]; rfl
     exact ⟨hpc, (hI.holder_of_cs hcs).2, fun u hu => hI.cs_unique (hI.holder_of_cs hcs).1 hu⟩
 
-/-- **(2) Nothing lost, nothing duplicated, global order = append order.** The items completely
-transmitted, then the one in the holder's hand, then the queue, are exactly the items appended so far, in
-the order they were appended. -/
-theorem conserve_order (h : Reachable n prog s) : s.out ++ s.hand.toList ++ s.queue = s.appended :=
-  (reachable_inv h).1.conserve
+/-- **(2) Nothing duplicated, global order = append order.** The items completely transmitted, then
+those dropped by a failed write, then the one in the holder's hand, then the queue, are exactly the items
+appended so far, in the order they were appended; and nothing is ever dropped while the transport works. -/
+theorem conserve_order (h : Reachable n prog s) :
+    s.out ++ s.lost ++ s.hand.toList ++ s.queue = s.appended ∧ (s.dead = false → s.lost = []) :=
+  ⟨(reachable_inv h).1.conserve, fun hd => ((reachable_inv h).1.alive hd).1⟩
 
-/-- **(2b) Per-thread order.** For every thread `t` given the program `prog t`: the messages of `t` that
-have left (transmitted, in hand, queued — in that order), followed by those it has still to issue, are
-`prog t`.  So on the wire the messages of one thread appear in the order the thread issued them. -/
+/-- **(2b) Per-sender order.** For every thread `t` given the program `prog t`: the messages of `t` that
+have left the thread (transmitted, dropped, in hand, queued — in that order), followed by those it has
+still to issue, are `prog t`.  So on the wire the messages of one thread appear in the order the thread
+issued them. -/
 theorem per_thread_order (h : Reachable n prog s) (t : Tid) (ht : t < n) :
-    ((s.out ++ s.hand.toList ++ s.queue).filter (fun it => it.1 == t)).map (·.2) ++ pending s t = prog t := by
-  rw [conserve_order h, ← (reachable_prog h).2 t ht]
+    ((s.out ++ s.lost ++ s.hand.toList ++ s.queue).filter (fun it => it.1 == t)).map (·.2) ++ pending s t
+      = prog t := by
+  rw [(conserve_order h).1, ← (reachable_prog h).2 t ht]
   exact (reachable_inv h).2.order t
 
 /-- the same for the nested activations (their program is the one message they were started with) -/
 theorem per_thread_order_all (h : Reachable n prog s) (t : Tid) :
-    ((s.out ++ s.hand.toList ++ s.queue).filter (fun it => it.1 == t)).map (·.2) ++ pending s t = s.prog t := by
-  rw [conserve_order h]
+    ((s.out ++ s.lost ++ s.hand.toList ++ s.queue).filter (fun it => it.1 == t)).map (·.2) ++ pending s t
+      = s.prog t := by
+  rw [(conserve_order h).1]
   exact (reachable_inv h).2.order t
 
+/-- **(2c) Order per OS thread, nested sends included.** If nested sends start only while their parent is
+inside `_send` past its append — wherever it holds the lock, in particular inside the transport write,
+which is where finalizers run "during transmission" — then the messages of one OS thread `r` (the thread
+and every activation nested on it) are appended, hence transmitted, in the order in which its `_send`
+calls started; at most the one call that has started and not yet appended is missing. -/
+theorem os_thread_order (h : ReachableR n prog s) (r : Tid) :
+    (∃ tail, onThread s r s.started = onThread s r (s.out ++ s.lost ++ s.hand.toList ++ s.queue) ++ tail
+      ∧ tail.length ≤ 1)
+    ∧ ((∀ u, s.root u = r → ∀ m, s.pc u ≠ .append m) →
+        onThread s r (s.out ++ s.lost ++ s.hand.toList ++ s.queue) = onThread s r s.started) := by
+  have hO := reachableR_os h
+  rw [(conserve_order h.toReachable).1]
+  refine ⟨?_, fun hno => (hO.k2 r hno).symm⟩
+  by_cases hex : ∃ u m, s.root u = r ∧ s.pc u = .append m
+  · obtain ⟨u, m, hu, hpc⟩ := hex
+    subst hu
+    exact ⟨[(u, m)], hO.k1 u m hpc, Nat.le_refl _⟩
+  · refine ⟨[], ?_, Nat.zero_le _⟩
+    rw [List.append_nil]
+    exact hO.k2 r (fun u hu m hpc => hex ⟨u, m, hu, hpc⟩)
+
 /-- **(3) Contiguous packets.** The wire is the concatenation of the complete packets of the transmitted
-items, each as its adjacent pieces in order, followed by a prefix of the pieces of the item in hand:
-no piece of another packet ever sits between two pieces of one packet. -/
+items, each as its adjacent pieces in order, followed by at most one unfinished packet: a prefix of the
+pieces of the item in hand or — only after the transport has failed — of the packet the failure cut. -/
 theorem contiguous (h : Reachable n prog s) :
-    s.wire = s.out.flatMap pieces ++ partialPkt s
-    ∧ (partialPkt s = [] ∨ ∃ x, s.hand = some x ∧ partialPkt s = (pieces x).take s.nw) := by
-  refine ⟨(reachable_inv h).1.contig, ?_⟩
-  unfold partialPkt
-  cases hh : s.hand with
-  | none => exact Or.inl rfl
-  | some x => exact Or.inr ⟨x, rfl, rfl⟩
+    s.wire = s.out.flatMap pieces ++ s.stub ++ partialPkt s
+    ∧ (partialPkt s = [] ∨ ∃ x, s.hand = some x ∧ partialPkt s = (pieces x).take s.nw)
+    ∧ (s.dead = false → s.stub = [])
+    ∧ (s.stub = [] ∨ (partialPkt s = [] ∧ ∃ x k, s.stub = (pieces x).take k)) := by
+  have hI := (reachable_inv h).1
+  refine ⟨hI.contig, ?_, fun hd => (hI.alive hd).2, ?_⟩
+  · unfold partialPkt
+    cases hh : s.hand with
+    | none => exact Or.inl rfl
+    | some x => exact Or.inr ⟨x, rfl, rfl⟩
+  · rcases hI.cut with hc | ⟨hnw, hc⟩
+    · exact Or.inl hc
+    · refine Or.inr ⟨?_, hc⟩
+      unfold partialPkt
+      cases s.hand <;> simp [hnw]
 
-/-- the liveness-carrying invariant behind (4): a non-empty queue always has someone responsible for it -/
-theorem queue_has_a_taker (h : Reachable n prog s) (hq : s.queue ≠ []) :
-    s.lock = true ∨ ∃ t, s.pc t = .check ∨ s.pc t = .tryLock :=
-  (reachable_inv h).1.live hq
+/-- the liveness-carrying invariant behind (4): while the transport works a non-empty queue always has
+someone responsible for it -/
+theorem queue_has_a_taker (h : Reachable n prog s) (hq : s.queue ≠ []) (hd : s.dead = false) :
+    s.lock = true ∨ ∃ t, s.pc t = .check ∨ s.pc t = .tryLock := by
+  rcases (reachable_inv h).1.live hq with h1 | h2
+  · rw [hd] at h1; cases h1
+  · exact h2
 
-/-- **(4) No stranding.** Once every sender has returned, nothing is queued or in hand, the lock is
-free, and the wire is exactly every appended message, once, as one contiguous packet, in append order. -/
-theorem no_stranding (h : Reachable n prog s) (hd : ∀ t, isDone s t) :
-    s.queue = [] ∧ s.hand = none ∧ s.lock = false ∧ s.wire = s.appended.flatMap pieces := by
+/-- what holds once every sender has returned, whatever happened -/
+theorem after_transport_failure (h : Reachable n prog s) (hd : ∀ t, isDone s t) :
+    s.lock = false ∧ s.hand = none
+    ∧ s.out ++ s.lost ++ s.queue = s.appended
+    ∧ s.wire = s.out.flatMap pieces ++ s.stub
+    ∧ (s.queue ≠ [] ∨ s.lost ≠ [] ∨ s.stub ≠ [] → s.dead = true) := by
   have hI := (reachable_inv h).1
   have hidle : ∀ t, s.pc t = .idle := fun t => (hd t).1
   have hlock : s.lock = false := by
@@ -86,42 +137,73 @@ theorem no_stranding (h : Reachable n prog s) (hd : ∀ t, isDone s t) :
     | true =>
       obtain ⟨t, ht⟩ := (mutex h).1.1 hl
       rw [hidle t] at ht; cases ht
-  have hq : s.queue = [] := by
-    apply Classical.byContradiction
-    intro hne
-    rcases hI.live hne with hl | ⟨t, ht⟩
-    · rw [hlock] at hl; cases hl
-    · rw [hidle t] at ht; rcases ht with ht | ht <;> cases ht
   have hh : s.hand = none := by
     rcases hI.hand_n with hn | ⟨t, _, ht⟩
     · exact hn
     · rw [hidle t] at ht; cases ht
-  refine ⟨hq, hh, hlock, ?_⟩
-  have hc := hI.conserve
-  rw [hh, hq] at hc
-  have hw := hI.contig
-  simp only [partialPkt, hh] at hw
-  simp only [Option.toList_none, List.append_nil] at hc
-  rw [hw, hc, List.append_nil]
+  refine ⟨hlock, hh, ?_, ?_, ?_⟩
+  · have hc := hI.conserve
+    rw [hh] at hc
+    simpa using hc
+  · have hw := hI.contig
+    simp only [partialPkt, hh, List.append_nil] at hw
+    exact hw
+  · intro hne
+    cases hdead : s.dead with
+    | true => rfl
+    | false =>
+      obtain ⟨hl, hs⟩ := hI.alive hdead
+      rcases hne with hq | hl' | hs'
+      · rcases hI.live hq with h1 | h1 | ⟨t, ht⟩
+        · rw [hdead] at h1; cases h1
+        · rw [hlock] at h1; cases h1
+        · rw [hidle t] at ht; rcases ht with ht | ht <;> cases ht
+      · exact absurd hl hl'
+      · exact absurd hs hs'
+
+/-- **(4) No stranding.** Once every sender has returned and the transport has not failed, nothing is
+queued, in hand or dropped, the lock is free, and the wire is exactly every appended message, once, as one
+contiguous packet, in append order. -/
+theorem no_stranding (h : Reachable n prog s) (hd : ∀ t, isDone s t) (halive : s.dead = false) :
+    s.queue = [] ∧ s.hand = none ∧ s.lock = false ∧ s.lost = [] ∧ s.wire = s.appended.flatMap pieces := by
+  obtain ⟨hl, hh, hc, hw, hdead⟩ := after_transport_failure h hd
+  have hI := (reachable_inv h).1
+  obtain ⟨hlost, hstub⟩ := hI.alive halive
+  have hq : s.queue = [] := by
+    apply Classical.byContradiction
+    intro hne
+    have := hdead (Or.inl hne)
+    rw [halive] at this; cases this
+  refine ⟨hq, hh, hl, hlost, ?_⟩
+  rw [hlost, hq] at hc
+  rw [hstub] at hw
+  simp only [List.append_nil] at hc hw
+  rw [hw, hc]
+
+/-- a message is left queued with every sender returned ONLY if the transport has failed -/
+theorem stranding_needs_dead_transport (h : Reachable n prog s) (hd : ∀ t, isDone s t) (hq : s.queue ≠ []) :
+    s.dead = true :=
+  (after_transport_failure h hd).2.2.2.2 (Or.inl hq)
 
 /-- **(4b)** at quiescence each thread's packets are on the wire in exactly the order it issued them -/
-theorem quiescent_order (h : Reachable n prog s) (hd : ∀ t, isDone s t) :
+theorem quiescent_order (h : Reachable n prog s) (hd : ∀ t, isDone s t) (halive : s.dead = false) :
     s.wire = s.out.flatMap pieces ∧ ∀ t, t < n → (s.out.filter (fun it => it.1 == t)).map (·.2) = prog t := by
-  obtain ⟨hq, hh, _, hw⟩ := no_stranding h hd
-  have hc := conserve_order h
-  rw [hh, hq] at hc
+  obtain ⟨hq, hh, _, hlost, hw⟩ := no_stranding h hd halive
+  have hc := (conserve_order h).1
+  rw [hh, hq, hlost] at hc
   simp only [Option.toList_none, List.append_nil] at hc
   refine ⟨by rw [hw, hc], fun t ht => ?_⟩
   have := per_thread_order h t ht
-  rw [hh, hq] at this
+  rw [hh, hq, hlost] at this
   have hp : pending s t = [] := by unfold pending; rw [(hd t).1]; exact (hd t).2
   rw [hp] at this
   simpa using this
 
-/-- **(5a) No sender ever blocks or raises.** A thread that has not returned and is not suspended under a
-nested send has an enabled next line in every reachable state, and no `_send` call ends in an exception
-(`pop(0)` never finds the queue empty, `release()` never finds the lock free). -/
-theorem enabled_unless_suspended (h : Reachable n prog s) (t : Tid) (hd : ¬ isDone s t) :
+/-- **(5a) No line of `_send` blocks, none raises on its own.** A thread that has not returned always has
+a defined next line (every line is non-blocking), and `_send` never raises `IndexError` (`pop(0)` never
+finds the queue empty) or `RuntimeError` (`release()` never finds the lock free).  (The only exception that
+can leave `_send` is the transport's, see `after_transport_failure`.) -/
+theorem never_blocks_never_raises (h : Reachable n prog s) (t : Tid) (hd : ¬ isDone s t) :
     (∃ s', step s t = some s') ∧ ∀ u, s.pc u ≠ .crash := by
   have hI := (reachable_inv h).1
   have := step_isSome (hI.nocrash t) hd
@@ -140,31 +222,52 @@ theorem no_deadlock (h : Reachable n prog s) (t : Tid) (hd : ¬ isDone s t) :
   | none => rw [hs'] at hs; cases hs
   | some s' => exact ⟨u, s', htu, hb, hs', Reachable.step u h hb hs'⟩
 
-/-- a nested send never outlives the discipline: a suspended parent waits for a younger activation -/
+/-- a suspended parent waits for a younger activation -/
 theorem nesting (h : Reachable n prog s) (p c : Tid) (hw : s.wait p = some c) : p < c ∧ c < s.next :=
   (reachable_inv h).2.wait_lt p c hw
 
-/-- **(6, obstruction-free form) Bounded return.** From any reachable state, a sender that is left
-undisturbed has returned from ALL its calls after at most `soloFuel s t` of its own lines
-(`9·|queue| + 25·|calls still to start| +` at most 14 for the call it is in); every single line
-strictly decreases that bound.  (Under interference no bound in terms of the thread's own program exists:
-other threads can keep the queue non-empty; each wasted iteration is then paid for by another thread's pop.) -/
-theorem returns_when_undisturbed (h : Reachable n prog s) (t : Tid) :
-    isDone (runSolo s t (soloFuel s t)) t
+/-- **(5b) Wait-freedom of a sender that does not get the lock.** Whatever the other threads do (their
+lines do not move `t`), after at most three lines of its own from the append — append, queue test,
+try-lock — thread `t` has either returned or become the lock holder. -/
+theorem non_holder_returns_in_three_lines :
+    (∀ {s s' : St} {t u : Tid}, u ≠ t → step s u = some s' → s'.pc t = s.pc t)
+    ∧ (∀ {s : St} {t : Tid} (p : Tid) (m : Msg), (reenter s p m).pc t = s.pc t ∧ (breakTransport s).pc t = s.pc t)
+    ∧ (∀ {s s' : St} {t : Tid} {m : Msg}, s.pc t = .append m → step s t = some s' → s'.pc t = .check)
+    ∧ (∀ {s s' : St} {t : Tid}, s.pc t = .check → step s t = some s' → s'.pc t = .idle ∨ s'.pc t = .tryLock)
+    ∧ (∀ {s s' : St} {t : Tid}, s.pc t = .tryLock → step s t = some s' →
+        (s'.pc t = .idle ∧ s.lock = true) ∨ (s'.pc t = .recheck ∧ s'.lock = true ∧ s'.holder = some t)) :=
+  ⟨fun hu hs => others_do_not_move hu hs, fun _ _ => ⟨rfl, rfl⟩, fun hpc hs => line_append hpc hs,
+   fun hpc hs => line_check hpc hs, fun hpc hs => line_tryLock hpc hs⟩
+
+/-- **(6, obstruction-free form) Bounded return.** From any reachable state, a sender that is not suspended
+under a nested send and is left undisturbed has returned from ALL its calls after at most `soloFuel s t`
+of its own lines (`9·|queue| + 25·|calls still to start| +` at most 14 for the call it is in); that run is
+a real execution, and every single line strictly decreases the bound.  (Under interference no bound in
+terms of the thread's own program exists: other threads can keep the queue non-empty; each wasted
+iteration is then paid for by another thread's pop.) -/
+theorem returns_when_undisturbed (h : Reachable n prog s) (t : Tid) (hb : ¬ blocked s t) :
+    Reachable n prog (runSolo s t (soloFuel s t))
+    ∧ isDone (runSolo s t (soloFuel s t)) t
     ∧ (¬ isDone s t → ∃ s', step s t = some s' ∧ soloFuel s' t < soloFuel s t) :=
-  ⟨solo_returns_aux t _ s (reachable_inv h).1 (Nat.le_refl _), fun hd => solo_step (reachable_inv h).1 hd⟩
+  ⟨runSolo_reachable t _ s h hb, solo_returns_aux t _ s (reachable_inv h).1 (Nat.le_refl _),
+   fun hd => solo_step (reachable_inv h).1 hd⟩
 
 /-- **(6b)** a nested (re-entrant) send, which runs while its parent stands still, returns within
-`9·|queue| + 25` lines; so the parent is suspended only for a bounded time and the discipline of (5)
-never leaves it waiting for ever -/
-theorem nested_send_returns (h : Reachable n prog s) (p : Tid) (m : Msg) :
-    soloFuel (reenter s p m) s.next = 9 * s.queue.length + 25
-    ∧ (Reachable n prog (reenter s p m) →
-        isDone (runSolo (reenter s p m) s.next (9 * s.queue.length + 25)) s.next) := by
-  have hf := soloFuel_reenter (reachable_inv h).2 p m
-  refine ⟨hf, fun h' => ?_⟩
-  rw [← hf]
-  exact (returns_when_undisturbed h' s.next).1
+`9·|queue| + 25` lines; so the parent is suspended only for a bounded time -/
+theorem nested_send_returns (h : Reachable n prog s) (p : Tid) (m : Msg) (hb : ¬ blocked s p) (hp : p < s.next) :
+    Reachable n prog (runSolo (reenter s p m) s.next (9 * s.queue.length + 25))
+    ∧ isDone (runSolo (reenter s p m) s.next (9 * s.queue.length + 25)) s.next := by
+  have hN := (reachable_inv h).2
+  have hf := soloFuel_reenter hN p m
+  have h' : Reachable n prog (reenter s p m) := .reenter p m h hb hp
+  have hnb : ¬ blocked (reenter s p m) s.next := by
+    rintro ⟨c, hc, _⟩
+    have hpn : s.next ≠ p := Nat.ne_of_gt hp
+    simp only [reenter, hpn, if_false] at hc
+    rw [(hN.fresh s.next (Nat.le_refl _)).2.2] at hc; cases hc
+  have := returns_when_undisturbed h' s.next hnb
+  rw [hf] at this
+  exact ⟨this.1, this.2.1⟩
 
 /-! ### non-vacuity: concrete reachable states -/
 
@@ -189,6 +292,7 @@ def demo : List Ev :=
    .run 0, .run 0, .run 0, .run 0, .run 0, .run 0, .run 0, .run 0, .run 0]
 
 def wireIds (s : St) : List (Nat × Nat) := s.wire.map (fun p => (p.1.2.id, p.2))
+def ids (l : List Item) : List Nat := l.map (·.2.id)
 
 example : ∃ s, Reachable 2 P s
     ∧ wireIds s = [(1, 0), (1, 1), (1, 2), (3, 0), (4, 0), (2, 0)]
@@ -223,5 +327,49 @@ example : ∃ s, Reachable 2 P s ∧ s.lock = true ∧ s.pc 0 = .write ∧ s.nw 
       (blockedB_iff s 0).1 h1.2.2.2.2.1, fun hd => ?_⟩
     have := (isDoneB_iff s 2).2 hd
     rw [h1.2.2.2.2.2] at this; cases this
+
+/-- **What a failed write strands (witness).** Thread 0 holds the lock with message 1 in hand and one of
+its three pieces written; thread 1 has queued message 3 and returned; the transport fails; thread 0's next
+write raises, its `finally` releases the lock and the exception leaves `_send`; thread 0 gives up.  Every
+sender that was inside `_send` has returned, the lock is free, message 1 is lost with one piece on the
+wire, and message 3 is left queued. -/
+def failDemo : List Ev :=
+  [.run 0, .run 0, .run 0, .run 0, .run 0, .run 0, .run 0,
+   .run 1, .run 1, .run 1, .run 1,
+   .brk, .run 0, .run 0]
+
+example : ∃ s, Reachable 2 P s ∧ s.dead = true ∧ s.lock = false ∧ s.pc 0 = .idle ∧ isDone s 1
+    ∧ ids s.queue = [3] ∧ ids s.lost = [1] ∧ wireIds s = [(1, 0)] ∧ s.stub.length = 1 ∧ s.out = [] := by
+  have h1 : (execAll (init 2 P) failDemo).map
+      (fun s => (s.dead, s.lock, decide (s.pc 0 = .idle), isDoneB s 1)) = some (true, false, true, true) := by decide
+  have h2 : (execAll (init 2 P) failDemo).map
+      (fun s => (ids s.queue, ids s.lost, wireIds s, s.stub.length, s.out.length))
+      = some ([3], [1], [(1, 0)], 1, 0) := by decide
+  cases hrun : execAll (init 2 P) failDemo with
+  | none => rw [hrun] at h1; cases h1
+  | some s =>
+    rw [hrun] at h1 h2
+    simp only [Option.map_some, Option.some.injEq, Prod.mk.injEq, decide_eq_true_eq] at h1 h2
+    exact ⟨s, reachable_execAll _ Reachable.init hrun, h1.1, h1.2.1, h1.2.2.1, (isDoneB_iff s 1).1 h1.2.2.2,
+      h2.1, h2.2.1, h2.2.2.1, h2.2.2.2.1, List.eq_nil_of_length_eq_zero h2.2.2.2.2⟩
+
+/-- **Why (2c) needs its restriction (witness).** A nested send started BEFORE the parent's append —
+e.g. a collection triggered by the allocation in `brine.dump`, whose `netref.__del__` sends — overtakes the
+parent's own message: OS thread 0 started `_send(1)` and then `_send(9)`, but 9 is on the wire before 1. -/
+def overtakeDemo : List Ev :=
+  [.run 0, .reent 0 ⟨9, false⟩,
+   .run 2, .run 2, .run 2, .run 2, .run 2, .run 2, .run 2, .run 2, .run 2,
+   .run 0, .run 0, .run 0, .run 0, .run 0, .run 0, .run 0, .run 0]
+
+theorem os_thread_order_needs_restriction :
+    ∃ s, Reachable 2 P s ∧ ids (onThread s 0 s.started) = [1, 9] ∧ ids (onThread s 0 s.out) = [9, 1] := by
+  have h1 : (execAll (init 2 P) overtakeDemo).map
+      (fun s => (ids (onThread s 0 s.started), ids (onThread s 0 s.out))) = some ([1, 9], [9, 1]) := by decide
+  cases hrun : execAll (init 2 P) overtakeDemo with
+  | none => rw [hrun] at h1; cases h1
+  | some s =>
+    rw [hrun] at h1
+    simp only [Option.map_some, Option.some.injEq, Prod.mk.injEq] at h1
+    exact ⟨s, reachable_execAll _ Reachable.init hrun, h1.1, h1.2⟩
 
 end Rpyc.Props.C12
